@@ -503,21 +503,30 @@ structure Cert where
   nargMax : Nat
   immcw : Nat
   cons : Bool
+  /-- 0 = `inst.Opcode ≠ 0` on every path; k+1 = at most k bytes were shifted into `inst.Opcode`, possibly all zero (5 = no claim) -/
+  z : Nat
   deriving Repr
 
 /-- certificate of a pc, `none` = no claim (unreachable) -/
 def cert? (pc : Nat) : Option Cert :=
   let w := certWord pc
   if w &&& 1 = 0 then none
-  else some { rank := (w >>> 1) &&& 15, nargMax := (w >>> 5) &&& 7, immcw := (w >>> 8) &&& 15, cons := (w >>> 12) &&& 1 = 1 }
+  else some { rank := (w >>> 1) &&& 15, nargMax := (w >>> 5) &&& 7, immcw := (w >>> 8) &&& 15, cons := (w >>> 12) &&& 1 = 1,
+              z := (w >>> 13) &&& 15 }
 
-/-- edge `c → pc'` with effect: `dn` args written, `rd` = width of a code-offset read (0 = none), `cs` = the edge consumed ≥ 1 byte -/
-def edgeOK (c : Cert) (dn rd : Nat) (cs : Bool) (pc' : Nat) : Bool :=
+/-- abstract `Opcode` state after an edge that shifts at most `np` bytes into `inst.Opcode`, one of them known non-zero if `pz` -/
+def edgeZ (z : Nat) (pz : Bool) (np : Nat) : Nat :=
+  if z = 0 then 0 else if pz && decide (z ≤ 4) then 0 else min 5 (z + np)
+
+/-- edge `c → pc'` with effect: `dn` args written, `rd` = width of a code-offset read (0 = none), `cs` = the edge consumed ≥ 1 byte,
+    `pz`/`np` = what it shifts into `inst.Opcode` -/
+def edgeOK (c : Cert) (dn rd : Nat) (cs : Bool) (pz : Bool) (np : Nat) (pc' : Nat) : Bool :=
   match cert? pc' with
   | none => false
   | some c' =>
     decide (c'.rank < c.rank) && decide (c.nargMax + dn ≤ c'.nargMax) && decide (c'.nargMax ≤ len_args)
       && decide (c'.immcw ≤ (if rd = 0 then c.immcw else rd)) && (!c'.cons || c.cons || cs)
+      && decide (edgeZ c.z pz np ≤ c'.z)
 
 def readCWidth (x : Nat) : Nat :=
   if x = xReadCb then 1 else if x = xReadCw then 2 else if x = xReadCd then 4 else if x = xReadCp then 6
@@ -537,10 +546,12 @@ structure Eff where
   needCons : Bool := false -- requires that a byte was consumed before
   needImmcw : Nat := 0     -- requires a code offset of at least this width
   static : Bool := true    -- array-index side conditions (`fixedArg[x]`, `memBytes[x]`, `baseReg[x]`)
+  np : Nat := 0            -- bytes shifted into inst.Opcode (ModRM + SIB)
+  needZ : Nat := 15        -- requires the abstract Opcode state to be at most this (0 = Opcode ≠ 0, ≤ 4 = non-zero or room left)
   deriving Repr
 
 def plainEff (x : Nat) : Option Eff :=
-  if x = xReadSlashR then some { cs := true }
+  if x = xReadSlashR then some { cs := true, np := 2, needZ := 4 }
   else if isReadI x then some { cs := true }
   else if readCWidth x ≠ 0 then some { rd := readCWidth x, cs := true, needCons := true }
   else if x = xArgPtr16colon16 ∨ x = xArgPtr16colon32 then some { dn := 2 }
@@ -550,26 +561,28 @@ def plainEff (x : Nat) : Option Eff :=
               && (if x ∈ memOps ∨ x ∈ moffsOps ∨ x ∈ rmOps then decide (x < len_memBytes) else true)
               && (if x = xArgYmm1 ∨ x ∈ regopOps ∨ x ∈ mmOps ∨ x ∈ rmfOps ∨ x ∈ opregOps ∨ x ∈ rmOps ∨ x = xArgMm2 ∨ x = xArgXmm2
                   then decide (x < baseReg.size) else true)
-           needImmcw := if x = xArgRel8 then 1 else if x = xArgRel16 then 2 else if x = xArgRel32 then 4 else 0 }
+           needImmcw := if x = xArgRel8 then 1 else if x = xArgRel16 then 2 else if x = xArgRel32 then 4 else 0
+           needZ := if x = xArgRel8 ∨ x = xArgRel16 ∨ x = xArgRel32 then 0 else 15 }
   else none
 
 def plainOK (c : Cert) (x next : Nat) : Bool :=
   match plainEff x with
   | none => false
-  | some e => (!e.needCons || c.cons) && decide (e.needImmcw ≤ c.immcw) && e.static && edgeOK c e.dn e.rd e.cs next
+  | some e => (!e.needCons || c.cons) && decide (e.needImmcw ≤ c.immcw) && e.static && decide (c.z ≤ e.needZ)
+      && edgeOK c e.dn e.rd e.cs false e.np next
 
 def instrOK (c : Cert) : Instr → Bool
   | .fail => true
   | .match_ => c.cons
-  | .jump t => edgeOK c 0 0 false t
-  | .condByte ents fall _ => ents.all (fun e => edgeOK c 0 0 true e.2) && edgeOK c 0 0 false fall
-  | .condIs64 t => edgeOK c 0 0 false t
-  | .condIsMem a b => c.cons && edgeOK c 0 0 false a && edgeOK c 0 0 false b
-  | .condDataSize a b d => edgeOK c 0 0 false a && edgeOK c 0 0 false b && edgeOK c 0 0 false d
-  | .condAddrSize a b d => edgeOK c 0 0 false a && edgeOK c 0 0 false b && edgeOK c 0 0 false d
-  | .condPrefix ents => ents.all (fun e => edgeOK c 0 0 false e.2)
-  | .condSlashR ts => decide (ts.length = 8) && ts.all (fun t => edgeOK c 0 0 true t)
-  | .setOp _ next => edgeOK c 0 0 false next
+  | .jump t => edgeOK c 0 0 false false 0 t
+  | .condByte ents fall _ => ents.all (fun e => edgeOK c 0 0 true (e.1 % 256 != 0) 1 e.2) && edgeOK c 0 0 false false 0 fall
+  | .condIs64 t => edgeOK c 0 0 false false 0 t
+  | .condIsMem a b => c.cons && edgeOK c 0 0 false false 0 a && edgeOK c 0 0 false false 0 b
+  | .condDataSize a b d => edgeOK c 0 0 false false 0 a && edgeOK c 0 0 false false 0 b && edgeOK c 0 0 false false 0 d
+  | .condAddrSize a b d => edgeOK c 0 0 false false 0 a && edgeOK c 0 0 false false 0 b && edgeOK c 0 0 false false 0 d
+  | .condPrefix ents => ents.all (fun e => edgeOK c 0 0 false false 0 e.2)
+  | .condSlashR ts => decide (c.z ≤ 4) && decide (ts.length = 8) && ts.all (fun t => edgeOK c 0 0 true false 2 t)
+  | .setOp _ next => edgeOK c 0 0 false false 0 next
   | .plain x next => plainOK c x next
   | .bad _ => false
 
